@@ -267,6 +267,15 @@ impl<W: WorldOps> Engine<W> {
             let d = [Step::Continue, Step::ContinueDestroy, Step::Break, Step::BreakDestroy][r.weighted(&weights)];
             decisions.insert(*raw, d);
         }
+        self.op_iter_destroy_with(wi, arch_level, q, decisions, pc);
+    }
+
+    /// Same, with an explicit decision per entity handle (used by the exhaustive enumeration).
+    pub fn op_iter_destroy_with(&mut self, wi: usize, arch_level: Option<usize>, q: usize, decisions: BTreeMap<(u32, u32), Step>, pc: &mut ProbeCounts) {
+        let expect = match arch_level {
+            Some(ai) => self.expect_arch(wi, ai, None),
+            None => self.expect_query(wi, q),
+        };
         let wid = self.slot(wi).m.id;
         let what = match arch_level {
             Some(ai) => format!("ecs_iter_destroy!(Entity<{}>)", self.archs[ai].name()),
